@@ -112,7 +112,7 @@ def build(cfg):
                        Node("x", "field", (M, "Outer", "x"), vis="local"), Node("xa", "abbrev", (M, "Outer", "x"), vis="private"),
                        Node("y", "field", (M, "Outer", "y"), vis="local", ftype=iaa),
                        Node("ya", "field", (M, "Outer", "ya"), vis="local", ftype=iaa)]
-    lines += ["  0 [+1]  Int  x (xa)", "  1 [+1]  im.Aa  y", "  4 [+p]  Int:8[]  tail", "  let ya = y"]
+    lines += ["  0 [+1]  Int  x (xa)", "    [requires: this < 100]", "  1 [+1]  im.Aa  y", "  4 [+p]  Int:8[]  tail", "  let ya = y"]
     dd = Node("Dd", "struct", (M, "Dd"))
     dd.children = [Node("z", "field", (M, "Dd", "z"), vis="local"), Node("o", "field", (M, "Dd", "o"), vis="local", ftype=outer),
                    Node("oy", "field", (M, "Dd", "oy"), vis="local", ftype=iaa)]
@@ -322,7 +322,10 @@ def check_case(case):
         if ex is not None:
             viol.append({"key": common.exc_key(ex), "msg": "%s: %r" % (label, ex), "detail": {"files": files}, "subcase": sub})
             continue
-        line = next(i + 1 for i, l in enumerate(src.split("\n")) if "probe" in l or "[requires:" in l or "PV =" in l)
+        if site == "outer_sreq":
+            line = next(i + 1 for i, l in enumerate(src.split("\n")) if l.startswith("  [requires:"))
+        else:
+            line = next(i + 1 for i, l in enumerate(src.split("\n")) if "probe" in l or "PV =" in l)
         if want == "error":
             if not errors:
                 viol.append({"key": "unresolvable-name-accepted:" + target, "msg": "%s: expected %s, module accepted" % (label, target),
